@@ -177,7 +177,6 @@ class GroupBase:
             return np.zeros(0)
 
         ret = [''] * n
-        _type_set = False
 
         models = self.idx2model(idx, allow_none=allow_none)
 
@@ -189,15 +188,12 @@ class GroupBase:
             else:
                 val = default
 
-            # deduce the type for ret
-            if not _type_set:
-                if isinstance(val, str):
-                    ret = [''] * n
-                else:
-                    ret = np.zeros(n)
-                _type_set = True
-
             ret[i] = val
+
+        # return an array for numerical values, and a list if any value is a string
+        # (e.g., an index field with both numbers and strings)
+        if not any(isinstance(val, str) for val in ret):
+            ret = np.array(ret, dtype=float)
 
         if single:
             ret = ret[0]
